@@ -12,6 +12,19 @@ class UnexpectedDER(Exception):
     pass
 
 
+def _printable(value):
+    """Text form of a value decoded from DER, for use in error messages.
+
+    Integers (and object identifier arcs) read from untrusted input can have
+    thousands of digits; since Python 3.11 converting those to a decimal
+    string raises ValueError, which must not replace the real error.
+    """
+    try:
+        return repr(value)
+    except ValueError:
+        return "<value too large to print>"
+
+
 def encode_constructed(tag, value):
     return int2byte(0xA0 + tag) + encode_length(len(value)) + value
 
